@@ -1,7 +1,8 @@
 (** C13  Regions, bounds and point-in-region tests are tight and consistent.
-    Statements only; proofs in Proofs/RegionProofs.v. *)
-From Coq Require Import QArith Qround Qabs ZArith List Bool Lia.
-From Verde Require Import Lib.QExtra Model.Coordinates Proofs.CoordinatesProofs Proofs.RegionProofs.
+    Statements only; proofs in Proofs/RegionProofs.v and Proofs/ProjectRegionProofs.v. *)
+From Coq Require Import QArith Qround Qabs ZArith List Bool Lia Lqa.
+From Verde Require Import Lib.QExtra Model.Coordinates Model.ProjectRegion Proofs.CoordinatesProofs Proofs.RegionProofs
+  Proofs.ProjectRegionProofs.
 Import ListNotations.
 Open Scope Q_scope.
 
@@ -82,6 +83,49 @@ Theorem C13_maxabs_spec : forall arrays,
    exists a x, In a arrays /\ In x a /\ maxabs arrays == Qabs x).
 Proof. exact maxabs_spec. Qed.
 Print Assumptions C13_maxabs_spec.
+
+(** project_region returns the bounding box of the projected region.  For ANY
+    projection (f, g) each returned bound is the projection of a point of the
+    region (so the box never exceeds that of the projected region) ... *)
+Theorem C13_project_region_attained : forall f g w e s n bw be bs bn,
+  project_region f g [w; e; s; n] = Some (bw, be, bs, bn) ->
+  (exists x y, in_box w e s n x y /\ f x y = bw) /\ (exists x y, in_box w e s n x y /\ f x y = be) /\
+  (exists x y, in_box w e s n x y /\ g x y = bs) /\ (exists x y, in_box w e s n x y /\ g x y = bn).
+Proof. intros f g w e s n bw be bs bn. exact (project_region_attained f g w e s n bw be bs bn 101). Qed.
+Print Assumptions C13_project_region_attained.
+
+(** ... and for projections monotone in each coordinate (in a direction not
+    depending on the other coordinate) it contains the projection of EVERY
+    point of the region: it is exactly the bounding box of the projected
+    region.  (For non-monotone projections this fails in general - an extreme
+    strictly between the 101 x 101 nodes is missed; the correspondence check
+    compares those with the box of the projected nodes.) *)
+Theorem C13_project_region_monotone_exact : forall f g w e s n bw be bs bn,
+  project_region f g [w; e; s; n] = Some (bw, be, bs, bn) ->
+  cw_monotone f -> cw_monotone g ->
+  forall x y, in_box w e s n x y -> bw <= f x y /\ f x y <= be /\ bs <= g x y /\ g x y <= bn.
+Proof. intros f g w e s n bw be bs bn H. exact (project_region_contains f g w e s n bw be bs bn 101 ltac:(lia) H). Qed.
+Print Assumptions C13_project_region_monotone_exact.
+
+Theorem C13_project_region_rejects : forall f g r, check_region r = false -> project_region f g r = None.
+Proof. exact project_region_rejects. Qed.
+Print Assumptions C13_project_region_rejects.
+
+Theorem C13_project_region_total : forall f g w e s n, w <= e -> s <= n ->
+  exists b, project_region f g [w; e; s; n] = Some b.
+Proof. exact project_region_total. Qed.
+Print Assumptions C13_project_region_total.
+
+(** non-vacuity: the documentation's projection (2x, -y) is coordinate-wise
+    monotone and gives the documented box on the documented region; a shear is
+    coordinate-wise monotone too *)
+Example C13_project_region_nv :
+  cw_monotone (fun x _ => 2 * x) /\ cw_monotone (fun _ y => - y) /\ cw_monotone (fun x y => x + (1 # 2) * y) /\
+  match project_region (fun x _ => 2 * x) (fun _ y => - y) [3; 5; -9; -4] with
+  | Some (a, b, c, d) => Qeqb a 6 && Qeqb b 10 && Qeqb c 4 && Qeqb d 9 = true
+  | None => False
+  end.
+Proof. exact project_region_nv. Qed.
 
 Example C13_nv : check_region [0; 5; -3; 2] = true /\ check_region [5; 0; 0; 1] = false /\
   inside [0; 5; -3; 2] [0; 5; 6] [2; -3; 0] = Some [true; true; false].
